@@ -60,6 +60,8 @@ func genHist(seed uint64, prop, tier string, audit bool, mode string) *Plan {
 	switch {
 	case strings.HasPrefix(mode, "synthsweep"):
 		return genSynthSweep(seed, prop, tier, mode)
+	case strings.HasPrefix(mode, "synthsel"):
+		return genSynthSel(seed, prop, tier, mode)
 	case strings.HasPrefix(mode, "sweep"):
 		return genSweep(seed, prop, tier, mode)
 	case strings.HasPrefix(mode, "tornsweep"):
@@ -296,7 +298,31 @@ func genHist(seed uint64, prop, tier string, audit bool, mode string) *Plan {
 		}
 		p.Ops = ops
 	}
+	addGC(g, p)
 	return p
+}
+
+// addGC: the garbage collector is a scheduler of its own - when it runs decides what pools, weak
+// references and finalizers hold. In a share of the runs forced collections are placed at seeded
+// points of the history (two cycles each: the second one empties what the first moved to the
+// pools' victim caches) and the collector's pace is set for the whole run.
+func addGC(g *RNG, p *Plan) {
+	if !g.Chance(0.35) {
+		return
+	}
+	p.Knobs["gcpercent"] = pick(g, []int{100, 100, 1, 10, 800})
+	pr := pick(g, []float64{0.1, 0.3, 0.6})
+	var ops []Op
+	n := 0
+	for _, op := range p.Ops {
+		if op.K != "clock" && g.Chance(pr) {
+			ops = append(ops, Op{K: "gc"})
+			n++
+		}
+		ops = append(ops, op)
+	}
+	p.Ops = ops
+	p.Knobs["forced_gc"] = n
 }
 
 // addClockJumps turns a history into one under a simulated clock (fine-grain build): the clock
